@@ -52,6 +52,11 @@ pub fn run(ctx: &Ctx, rep: &mut Report) {
         "y = if [\n  1, // one\n] then 2 else 3",
         "output z = [\n  1, // one\n]  // eol",
         "output z  // eol",
+        "r = {\n  a: 1,\n  b: 2 // own\n  // dangling 1\n  // dangling 2\n}",
+        "l = [\n  1,\n  2 // own\n  // dangling 1\n  // dangling 2\n]",
+        "r = {\n  // lead a\n  a: 1, // after comma\n  b: [\n    1 // inner own\n    // inner dangling\n  ] // own\n  // dangling\n}",
+        "f = x => do {\n  // c1\n  // c2\n  y = 1  // t1\n  z = 2  // t2\n  // r1\n  // r2\n  return y\n}",
+        "g(1, [\n  2 // own\n  // d\n], {\n  k: 3 // own\n  // d\n})",
     ];
     for src in fixed.iter() {
         rep.case(src, true);
